@@ -1,9 +1,196 @@
-/- Driver operations for C09 (stub: to be filled by the property's model). -/
+/- Driver operations for C09: the frequent-directions model (`Model/FD.lean`) at `Float`. Mathlib-free.
+
+The SVD is an external kernel of the model (a parameter). The harness asks for the matrix the model hands to
+the SVD (`*_b` ops), factors it with LAPACK in float64 and passes `U, s` back (`*_step` ops); every step op
+re-computes the model's own `B`, evaluates the residuals of `SvdSpec B ⟨U, s⟩` (reconstruction of `B Bᵀ`,
+orthogonality of `U`, order and sign of `s`) and returns them with the result, so a factorisation that does not
+meet the specification the theorems assume is detected at run time.
+
+  fd_b / fd_step            generic `fdB` / `stepO` + `invRoots` + `invTail`
+  ds_b / ds_step            `dsB` / `dsFdUpdateRootO`
+  sketchy_b / sketchy_step  `sketchyB` / `sketchyUpdateAxisO`
+  oco_b / oco_step          `ocoB` / `ocoFdUpdateO`
+  fd_run                    `fdRunO` over a list of supplied SVD outputs (must equal the chained `fd_step`s)
+-/
 import PrecondVerif.Kit.Proto
+import PrecondVerif.Model.FD
 
 namespace PrecondVerif.Drv.C09
-open Lean PrecondVerif.Proto
+open Lean PrecondVerif.Proto PrecondVerif.FD
 
-def ops : List Op := []
+/-! ### codecs -/
+
+def vecOfList (n : Nat) (l : List Float) : Vec Float n :=
+  let a := l.toArray
+  fun i => a.getD i.1 0.0
+
+def listOfVec {n : Nat} (v : Vec Float n) : List Float := (List.finRange n).map v
+
+def getVec (j : Json) (key : String) (n : Nat) : R (Vec Float n) := do
+  let l ← asListOf asFloat (← field j key)
+  if l.length ≠ n then throw s!"{key}: expected {n} entries, got {l.length}"
+  pure (vecOfList n l)
+
+def getMat (j : Json) (key : String) (m n : Nat) : R (Mat Float m n) := do
+  let rows ← asListOf (asListOf asFloat) (← field j key)
+  if rows.length ≠ m then throw s!"{key}: expected {m} rows, got {rows.length}"
+  if rows.any (fun r => r.length ≠ n) then throw s!"{key}: expected rows of length {n}"
+  let a := (rows.map fun r => r.toArray).toArray
+  pure fun i j => (a.getD i.1 #[]).getD j.1 0.0
+
+def vecJson {n : Nat} (v : Vec Float n) : Json := listToJson floatToJson (listOfVec v)
+def matJson {m n : Nat} (A : Mat Float m n) : Json := listToJson (fun i => vecJson (A i)) (List.finRange m)
+
+def getF (j : Json) (key : String) : R Float := do asFloat (← field j key)
+
+def fmax (a b : Float) : Float := if a < b then b else if b < a then a else if a == a then a else b
+def maxAbs (l : List Float) : Float := l.foldl (fun acc x => fmax acc x.abs) 0.0
+
+def entries {m n : Nat} (A : Mat Float m n) : List Float :=
+  (List.finRange m).flatMap fun i => (List.finRange n).map fun j => A i j
+
+/-- `x ** (-1/p)` -/
+def powNeg (p : Float) (x : Float) : Float := Float.pow x (-1.0 / p)
+
+/-- residuals of `SvdSpec B o`: max-abs of `U diag(s²) Uᵀ − B Bᵀ`, of `U Uᵀ − 1`, of `Uᵀ U − 1`;
+`s` non-negative and descending; and the scale `max|B Bᵀ|` -/
+def svdResiduals {d n : Nat} (B : Mat Float d n) (o : SvdOut Float d) : Json :=
+  let BBt := forceM (outer B)
+  let rec_ := maxAbs (entries fun i j : Fin d => (sumFin fun a => o.U i a * (o.s a * o.s a) * o.U j a) - BBt i j)
+  let rows := maxAbs (entries fun i j : Fin d => (sumFin fun a => o.U i a * o.U j a) - (if i = j then 1.0 else 0.0))
+  let cols := maxAbs (entries fun a b : Fin d => (sumFin fun i => o.U i a * o.U i b) - (if a = b then 1.0 else 0.0))
+  let sl := listOfVec o.s
+  let ordered := sl.all (fun x => decide (0.0 ≤ x)) && (sl.zip sl.tail).all (fun p => decide (p.2 ≤ p.1))
+  obj [("recon", floatToJson rec_), ("u_rows", floatToJson rows), ("u_cols", floatToJson cols),
+       ("ordered", Json.bool ordered), ("scale", floatToJson (maxAbs (entries BBt)))]
+
+def getSvd (j : Json) (d : Nat) : R (SvdOut Float d) := do
+  let U ← getMat j "U" d d
+  let s ← getVec j "s" d
+  pure { U := U, s := s }
+
+def getState (j : Json) (d k : Nat) : R (State Float d k) := do
+  let V ← getMat j "V" d k
+  let l ← getVec j "l" k
+  let t ← getF j "t"
+  pure { V := V, l := l, t := t }
+
+def stateFields {d k : Nat} (st : State Float d k) : List (String × Json) :=
+  [("V", matJson st.V), ("l", vecJson st.l), ("t", floatToJson st.t), ("sketch", matJson (sketch st))]
+
+/-! ### generic -/
+
+def fdArgs (j : Json) : R (Σ d k m : Nat, Float × State Float d k × Mat Float d m) := do
+  let d ← getNat j "d"
+  let k ← getNat j "k"
+  let m ← getNat j "m"
+  let β ← getF j "beta"
+  let st ← getState j d k
+  let G ← getMat j "G" d m
+  pure ⟨d, k, m, β, st, G⟩
+
+/-! ### Distributed Shampoo -/
+
+def dsArgs (j : Json) : R (Σ d k : Nat, DsCfg Float × State Float d k × Mat Float d d) := do
+  let d ← getNat j "d"
+  let k ← getNat j "k"
+  let cfg : DsCfg Float :=
+    { ridgeEps := ← getF j "ridge_epsilon", tol := ← getF j "error_tolerance",
+      relative := ← getBool j "relative", β := ← getF j "beta", ps := ← getNat j "padding_start" }
+  let st ← getState j d k
+  let G ← getMat j "G" d d
+  pure ⟨d, k, cfg, st, G⟩
+
+/-! ### Sketchy -/
+
+def skArgs (j : Json) : R (Σ d k m : Nat, Float × SkState Float d k × Mat Float d m) := do
+  let d ← getNat j "d"
+  let k ← getNat j "k"
+  let m ← getNat j "m"
+  let β ← getF j "beta"
+  let V ← getMat j "V" d k
+  let e ← getVec j "e" k
+  let t ← getF j "t"
+  let G ← getMat j "G" d m
+  pure ⟨d, k, m, β, { V := V, e := e, t := t }, G⟩
+
+/-! ### OCO -/
+
+def ocoArgs (j : Json) : R (Σ k n : Nat, OcoState Float k n × Vec Float n) := do
+  let ell ← getNat j "sketch_size"
+  let n ← getNat j "n"
+  if ell = 0 then throw "sketch_size must be positive"
+  let k := ell - 1
+  let P ← getMat j "P" (k + 1) n
+  let e ← getVec j "e" (k + 1)
+  let t ← getF j "t"
+  let g ← getVec j "g" n
+  pure ⟨k, n, { P := P, e := e, t := t }, g⟩
+
+def ops : List Op := [
+  ("fd_b", fun j => do
+    let ⟨_, _, _, β, st, G⟩ ← fdArgs j
+    pure (obj [("B", matJson (fdB Float.sqrt β st G))])),
+  ("fd_step", fun j => do
+    let ⟨d, k, _, β, st, G⟩ ← fdArgs j
+    let o ← getSvd j d
+    let p ← getF j "p"
+    let eps ← getF j "eps"
+    let B := forceM (fdB Float.sqrt β st G)
+    -- `fdStep` with the constant oracle `fun _ => o`
+    let st' := fdStep (fun _ => o) Float.sqrt β st G
+    pure (obj (stateFields st' ++ [
+      ("rho", floatToJson (rho k o)), ("cutoff", floatToJson (cutoff k o)),
+      ("kept", listToJson (fun a => Json.bool (kept k o a)) (List.finRange k)),
+      ("inv", vecJson (invRoots k (powNeg p) eps β st.t o)),
+      ("inv_tail", floatToJson (invTail (powNeg p) eps st'.t)),
+      ("svd", svdResiduals B o)]))),
+  ("fd_run", fun j => do
+    let d ← getNat j "d"
+    let k ← getNat j "k"
+    let β ← getF j "beta"
+    let st ← getState j d k
+    let os ← (← asList (← field j "svds")).mapM fun x => getSvd x d
+    pure (obj (stateFields (fdRunO β st os)))),
+  ("ds_b", fun j => do
+    let ⟨_, _, cfg, st, G⟩ ← dsArgs j
+    pure (obj [("B", matJson (dsB Float.sqrt cfg st G)), ("ridge", floatToJson (dsRidge cfg st.l))])),
+  ("ds_step", fun j => do
+    let ⟨d, k, cfg, st, G⟩ ← dsArgs j
+    let o ← getSvd j d
+    let p ← getF j "p"
+    let B := forceM (dsB Float.sqrt cfg st G)
+    let out := dsFdUpdateRoot (fun _ => o) Float.sqrt (powNeg p) cfg st G
+    pure (obj (stateFields out.st ++ [
+      ("rho", floatToJson (rho k o)), ("inv", vecJson out.inverted), ("const", floatToJson out.const),
+      ("has_zeros", Json.bool out.hasZeros), ("ridge", floatToJson (dsRidge cfg st.l)),
+      ("svd", svdResiduals B o)]))),
+  ("sketchy_b", fun j => do
+    let ⟨_, _, _, β, st, G⟩ ← skArgs j
+    pure (obj [("B", matJson (sketchyB Float.sqrt β st G))])),
+  ("sketchy_step", fun j => do
+    let ⟨d, k, _, β, st, G⟩ ← skArgs j
+    let o ← getSvd j d
+    let p ← getF j "p"
+    let epsilon ← getF j "epsilon"
+    let relative ← getBool j "relative"
+    let B := forceM (sketchyB Float.sqrt β st G)
+    let out := sketchyUpdateAxis (fun _ => o) Float.sqrt (powNeg p) epsilon relative β st G
+    pure (obj (stateFields out.st.denote ++ [
+      ("e", vecJson out.st.e), ("rho", floatToJson (relu (cutoff k o) * relu (cutoff k o))),
+      ("inv", vecJson out.invEig), ("inv_tail", floatToJson out.invTail), ("eps", floatToJson out.eps),
+      ("svd", svdResiduals B o)]))),
+  ("oco_b", fun j => do
+    let ⟨_, _, st, g⟩ ← ocoArgs j
+    pure (obj [("B", matJson (ocoB st g))])),
+  ("oco_step", fun j => do
+    let ⟨k, n, st, g⟩ ← ocoArgs j
+    let o ← getSvd j n
+    let B := forceM (ocoB st g)
+    let st' := ocoFdUpdateO Float.sqrt st o
+    pure (obj (stateFields st'.denote ++ [
+      ("P", matJson st'.P), ("e", vecJson st'.e), ("rho", floatToJson (rho k o)),
+      ("svd", svdResiduals B o)])))
+]
 
 end PrecondVerif.Drv.C09
